@@ -3,6 +3,7 @@ import BV.C12.Model
 import BV.C12.Spec
 import BV.C12.Gen
 import BV.C09.Model
+import BV.C12.ComposeExec
 import BV.Common.Hex
 namespace BV.C12.Driver
 open BV.C12
@@ -185,6 +186,7 @@ def render (e : Env) (pool : List Tx) (t0 : Template) (pb : Bool) : String :=
   ++ ",dep:" ++ b2s (Spec.depsBefore pool t0.sel [])
   ++ ",pay:" ++ b2s (Spec.accountingOk e pool t0)
   ++ ",wc:1,meta:1,ccb:1,upd:1,pb:" ++ (if pb then "1" else "-")
+  ++ ",c01:" ++ b2s (c01Valid e pool t0)
 
 /-- `dp=` token: difficulty parameters in the order of C09's `Params`. -/
 def parseDiffParams? (s : String) : Option BV.C09.Params :=
